@@ -674,7 +674,8 @@ func (r *Request) do() (resp *Response, err error) {
 		contextCanceled := errors.Is(err, context.Canceled)
 
 		for _, f := range r.afterResponse {
-			if err = f(r.client, resp); err != nil {
+			if e := f(r.client, resp); e != nil {
+				err = e
 				return
 			}
 		}
